@@ -2,6 +2,7 @@ package sym
 
 import (
 	"go/types"
+	"strings"
 
 	"golang.org/x/tools/go/ssa"
 
@@ -26,6 +27,10 @@ func registerEnvStubs() {
 		}
 		x.mutexHeld[c] = 1
 		x.lockEvents = append(x.lockEvents, "lock")
+		x.raceAcquire(c)
+		if !strings.HasSuffix(f.Fn.Name(), "RLock") {
+			x.raceAcquire(rdKey{c})
+		}
 		return nil
 	}
 	unlock := func(x *Exec, f *Closure, a []Value, cc *ssa.CallCommon) Value {
@@ -35,6 +40,11 @@ func registerEnvStubs() {
 		}
 		x.mutexHeld[c] = 0
 		x.lockEvents = append(x.lockEvents, "unlock")
+		if strings.HasSuffix(f.Fn.Name(), "RUnlock") {
+			x.raceRelease(rdKey{c}, true) // readers publish to the next writer only
+		} else {
+			x.raceRelease(c, false)
+		}
 		// goroutines parked on this mutex get it now, one after the other
 		for len(x.parked[c]) > 0 && x.mutexHeld[c] == 0 {
 			g := x.parked[c][0]
@@ -49,6 +59,8 @@ func registerEnvStubs() {
 			return x.ctx.False()
 		}
 		x.mutexHeld[c] = 1
+		x.raceAcquire(c)
+		x.raceAcquire(rdKey{c})
 		return x.ctx.True()
 	}
 	for _, t := range []string{"(*sync.Mutex)", "(*sync.RWMutex)"} {
@@ -71,9 +83,19 @@ func registerEnvStubs() {
 		return t
 	}
 	// sync/atomic primitives (sequential model: goroutines are run to completion at their spawn point)
-	load := func(x *Exec, f *Closure, a []Value, cc *ssa.CallCommon) Value { return x.load(a[0].(Ptr)) }
-	store := func(x *Exec, f *Closure, a []Value, cc *ssa.CallCommon) Value { x.store(a[0].(Ptr), a[1]); return nil }
+	// (race detection: an atomic store/add publishes the goroutine's clock on the cell, an atomic load acquires it)
+	load := func(x *Exec, f *Closure, a []Value, cc *ssa.CallCommon) Value {
+		x.raceAcquire(a[0].(Ptr).C)
+		return x.load(a[0].(Ptr))
+	}
+	store := func(x *Exec, f *Closure, a []Value, cc *ssa.CallCommon) Value {
+		x.raceRelease(a[0].(Ptr).C, true)
+		x.store(a[0].(Ptr), a[1])
+		return nil
+	}
 	add := func(x *Exec, f *Closure, a []Value, cc *ssa.CallCommon) Value {
+		x.raceAcquire(a[0].(Ptr).C)
+		x.raceRelease(a[0].(Ptr).C, true)
 		v := x.ctx.Add(x.load(a[0].(Ptr)).(*term.Term), a[1].(*term.Term))
 		x.store(a[0].(Ptr), v)
 		return v
@@ -86,10 +108,12 @@ func registerEnvStubs() {
 	stubs["(*sync.Once).Do"] = func(x *Exec, f *Closure, a []Value, cc *ssa.CallCommon) Value {
 		c := a[0].(Ptr).C
 		if _, done := x.side[c]; done {
+			x.raceAcquire(c)
 			return nil
 		}
 		x.side[c] = true
 		x.callValue(a[1], nil, nil)
+		x.raceRelease(c, true)
 		return nil
 	}
 	// context: WithValue keeps the parent's cancellation behaviour (the value itself is not modelled);
